@@ -9672,6 +9672,12 @@ def _write_node(node, xml_tree=None, viewport_transform=None):
             xml_tree.set(SVG_ATTR_HEIGHT, str(node.height))
         if node.viewbox:
             xml_tree.set(SVG_ATTR_VIEWBOX, str(node.viewbox))
+            if node.viewbox.preserve_aspect_ratio is not None:
+                # The viewport transform divided out of the children depends on it.
+                xml_tree.set(
+                    SVG_ATTR_PRESERVEASPECTRATIO,
+                    str(node.viewbox.preserve_aspect_ratio),
+                )
         vt = None
         try:
             vt = node.viewbox_transform
